@@ -46,6 +46,12 @@ def atom_axioms(atoms, present):
         elif k == "sl":
             ax.append(("le", -A))
             ax.append(("le", A - (2 ** (a[3] - a[2]) - 1)))
+            # t = 2^hi * (t div 2^hi) + 2^lo * sl + (t mod 2^lo)
+            d = ("div", a[1], 1 << a[3])
+            m = ("mod", a[1], 1 << a[2])
+            if d in present and m in present:
+                t = Lin.from_key(a[1])
+                ax.append(("eq", t - Lin.atom(d, 1 << a[3]) - A.scale(1 << a[2]) - Lin.atom(m)))
         elif k == "k":
             ax.append(("le", -A))
         elif k == "elem":
@@ -356,6 +362,10 @@ def unsat(lits):
         atoms_deep(L, atoms)
     # link div/mod pairs: when a div atom is present make sure its mod partner is as well
     extra_eqs = []
+    for a in list(atoms):
+        if a[0] == "sl":
+            atoms.add(("div", a[1], 1 << a[3]))
+            atoms.add(("mod", a[1], 1 << a[2]))
     for a in list(atoms):
         if a[0] == "div":
             m = ("mod", a[1], a[2])
